@@ -345,6 +345,9 @@ impl LogInnerManager {
             self.need_seek_at_write = false;
         }
         self.data_file.write_all(&buf).await?;
+        //tokio hands the write to a blocking thread and returns; the caller acknowledges the
+        //entry, so wait until the write call has really been issued
+        self.data_file.flush().await?;
         self.data_cursor += buf.len() as u64;
         self.current_index_count += 1;
         self.last_term = record.term;
@@ -357,6 +360,7 @@ impl LogInnerManager {
                 .seek(SeekFrom::Start(self.index_cursor))
                 .await?;
             self.index_file.write_all(&index_data).await?;
+            self.index_file.flush().await?;
             self.index_cursor += index_data.len() as u64;
             self.indexs.push(InnerIdxDto {
                 log_index: self.msg_count + self.header.first_index,
